@@ -563,9 +563,9 @@ def map_insert(eng, st, fr, m, key, val, after):
             acts.append((cond, hit))
     return ('forks', acts)
 
-MAPTY = r'(?:indexmap::(?:map::)?)?IndexMap|(?:std::collections::)?HashMap|(?:std::collections::(?:hash_map::)?)?HashMap'
+MAPTY = r'(?:indexmap::(?:map::)?)?IndexMap|(?:std::collections::)?HashMap|(?:std::collections::(?:hash_map::)?)?HashMap|(?:std::collections::)?BTreeMap'
 
-@model(r'^<(?:' + MAPTY + r'|(?:indexmap::)?IndexSet|(?:std::collections::)?HashSet)<.*> as Default>::default$|^(?:' + MAPTY + r'|(?:indexmap::)?IndexSet|(?:std::collections::)?HashSet)::<.*>::(?:new|with_capacity)$')
+@model(r'^<(?:' + MAPTY + r'|(?:indexmap::)?IndexSet|(?:std::collections::)?HashSet|(?:std::collections::)?BTreeSet)<.*> as Default>::default$|^(?:' + MAPTY + r'|(?:indexmap::)?IndexSet|(?:std::collections::)?HashSet|(?:std::collections::)?BTreeSet)::<.*>::(?:new|with_capacity)$')
 def m_map_new(ctx):
     hashed = bool(re.match(r'^<?(?:std::collections::)?(?:hash_map::|hash_set::)?Hash(?:Map|Set)', ctx.callee))
     return ctx.ret(MapV((), hashed))
@@ -576,7 +576,7 @@ def m_map_insert(ctx):
     def after(st, fr, nm, old):
         eng.write_ref(st, r, nm); return _finish(eng, st, fr, dst, tgt, none() if old is None else some(old))
     return map_insert(eng, ctx.st, ctx.fr, m, ctx.args[1], ctx.args[2], after)
-@model(r'^(?:(?:indexmap::)?IndexSet|(?:std::collections::)?HashSet)::<.*>::insert$')
+@model(r'^(?:(?:indexmap::)?IndexSet|(?:std::collections::)?HashSet|(?:std::collections::)?BTreeSet)::<.*>::insert$')
 def m_set_insert(ctx):
     r = ctx.args[0]; m = ctx.deref(r); eng = ctx.eng; dst, tgt = ctx.dst, ctx.tgt
     def after(st, fr, nm, old):
@@ -639,6 +639,11 @@ def m_map_index(ctx):
             if i is None: alts.append((cond, Panic('IndexMap: key not found')))
             else: alts.append((cond, Ref(r.base, r.path + (('i', i), 1)) if isinstance(r, Ref) and isinstance(r.base, int) else m.entries[i][1]))
         return ctx.forks(alts)
+    if isinstance(m, Lazy):
+        # read-only lazily instantiated map indexed by a key: the entry is assumed to exist (documented precondition of Index)
+        k = ctx.deref(key); kn = k.name if isinstance(k, (Lazy, Opaque)) else f'k{fresh_id()}'
+        ctx.eng.opaque_calls.add('Index on a lazily instantiated map (key assumed present)')
+        return ctx.ret(Ref(m.kid(f'[@{kn}].v', elem_ty(m.ty, 'v')), ()))
     return NotImplemented
 @model(r'^(?:' + MAPTY + r'|(?:indexmap::)?IndexSet|(?:std::collections::)?HashSet)::<.*>::len$')
 def m_map_len(ctx):
@@ -646,7 +651,7 @@ def m_map_len(ctx):
     if isinstance(m, MapV): return ctx.ret(bv64(len(m.entries)))
     if isinstance(m, Lazy): return ctx.ret(lz_len(ctx.eng, m))
     raise EngineError(f'len of {m!r}')
-@model(r'^(?:' + MAPTY + r'|(?:indexmap::)?IndexSet|(?:std::collections::)?HashSet)::<.*>::is_empty$')
+@model(r'^(?:' + MAPTY + r'|(?:indexmap::)?IndexSet|(?:std::collections::)?HashSet|(?:std::collections::)?BTreeSet)::<.*>::is_empty$')
 def m_map_is_empty(ctx):
     m = ctx.deref(ctx.args[0])
     if isinstance(m, MapV): return ctx.ret(BoolVal(len(m.entries) == 0))
